@@ -258,6 +258,14 @@ fn get_match_statically_known(
 
     let query_variable = |query: &expr::StaticallyKnownVariableQuery|
     {
+        // The built-in `$`/`pc` always evaluate to the current address,
+        // even when the user has declared a symbol of that name
+        if query.hierarchy_level == 0 &&
+            (query.hierarchy[0] == "$" || query.hierarchy[0] == "pc")
+        {
+            return false;
+        }
+
         match decls.symbols.try_get_by_name(
             symbol_ctx,
             query.hierarchy_level,
